@@ -104,6 +104,31 @@ CHECKS["C07"] = dict(
          "non-negativity, closed form at 1e-30, monotonicity in price, proportionality and the exact round trip, and the same clauses for "
          "the spec's own functions")
 
+UNI_TECH = ("TLA+ spec UniLp.tla (positions, wallet, per-bar fee with the tick-path fraction, buy/sell) over the exact tick and "
+            "liquidity math of TickMath.tla/LiqMath.tla, model-checked by TLC through MC_UniLp, which runs both token orientations "
+            "in lockstep (self-composition); behaviours replayed through the real Actuator bar loop into UniLpMarket in both orientations")
+CHECKS["C08"] = dict(technique=UNI_TECH, design="3/C08",
+    text="TLC checks on every bar end of the bounded graph that each position's fee is non-negative, zero when the path misses the "
+         "range, never above the single-position share and equal to volume x fee rate x path fraction x own/(pool+own) for a single "
+         "position, with the path starting at the previous bar's close whatever was written in the bar (DEV switches for the two "
+         "deviations); every behaviour (all (previous close, close) pairs over ticks on, next to and far from the range bounds, pool "
+         "liquidity 0 / L / 1000L, unrelated writes and swaps in the same bar, integer and float tick columns) is run through "
+         "the real Actuator and the per-bar pending deltas are compared with the spec")
+CHECKS["C09"] = dict(technique=UNI_TECH, design="3/C09",
+    text="MC_UniLp steps a token0-is-quote pool and its mirror (ticks negated, ranges mirrored, volumes swapped) with the same "
+         "base/quote events and TLC checks outcome, wallet, liquidity, pending fees and net value agree to 1e-12; each behaviour is "
+         "executed on two real UniLpMarket instances; each must follow its own spec state and the two real runs must agree with "
+         "each other in base/quote terms (fee paths with an endpoint exactly on a range bound are excluded: half-open range test)")
+CHECKS["C20"] = dict(
+    technique="TLA+ spec Metrics.tla (drawdown three ways, returns, relational annualisation and volatility with certified "
+              "enclosures over exact rationals); TLC enumerates series/benchmark cases as behaviours (MC_Metrics, 8 invariants, DEV "
+              "switch) and prints each case with the expected values; cases replayed into the real metric functions",
+    design="3/C20",
+    text="every series of length 2..5 (thorough 2..6) over {1,2,3,5,8} x value families x sampling intervals x benchmark families, plus "
+         "TLC-simulated series up to length 200, is evaluated by TLC and replayed into max_draw_down, return_rate, return_rate_series, "
+         "return_multiple, annualized_return (all input forms), volatility, sharpe_ratio, alpha_beta and performance_metrics at 1e-9 "
+         "relative (annualisation and volatility through their defining relations, exactly)")
+
 NOT_YET = "check not built yet in this round (see DESIGN.md section 3 for the planned spec clauses)"
 
 
